@@ -806,6 +806,9 @@ def rederive_known(k):
 
 
 def replay(payload):
+    _f = payload.get('failure') or {}
+    if _f.get('threshold_input'):
+        return common.threshold_replay('C13', _f)
     f = payload.get('failure')
     if not f or 'input' not in f:
         return {'fails': False, 'note': 'no concrete input in replay file: ' + str(payload.get('no_longer_checks'))}
@@ -874,6 +877,7 @@ def run(ctx):
     n = ctx.n(6000, 60000)
     texts, dist, nchecks, by_sig, count_sig, shapes = sweep(ctx, n)
     res = {'disagreements': [], 'failures': []}
+    res['failures'] += common.threshold_failures('C13', ctx.quick())
     fw, nfw = fnword_failures(ctx)
     res['failures'] += fw[:3]
     nchecks['fnword'] = nfw
